@@ -346,21 +346,8 @@ func runC06(c *Ctx) {
 	c.Check(fname(vs)+"#commitments-compared", vs.Pos(), len(missing) == 0 && gasCmp && irTrue, ifelse(len(missing) == 0 && gasCmp && irTrue, "gas used, bloom, receipt root and the three roots of IntermediateRoot(true) are compared with the header", "ValidateState no longer compares: "+strings.Join(missing, ", ")+ifelse(gasCmp, "", " gasUsed")+ifelse(irTrue, "", " IntermediateRoot(true)")))
 	// Process verifies gas rewards and returns on any transaction error
 	pr := w.Fn("core", "StateProcessor", "Process")
-	grOK := false
-	for _, b := range pr.Blocks {
-		for _, in := range b.Instrs {
-			if ci, ok := in.(ssa.CallInstruction); ok {
-				if o := calleeObj(ci); o != nil && o.Name() == "Cmp" {
-					for _, a := range ci.Common().Args {
-						if f, _ := loadedField(stripConv(a)); f != nil && f.Name() == "GasRewards" {
-							grOK = true
-						}
-					}
-				}
-			}
-		}
-	}
-	c.Check(fname(pr)+"#gas-rewards-compared", pr.Pos(), grOK, ifelse(grOK, "computed gas rewards are compared with the header's", "Process no longer compares the computed gas rewards with the header"))
+	grOK, grWhy := gasRewardsGate(w, pr)
+	c.Check(fname(pr)+"#gas-rewards-compared", pr.Pos(), grOK, ifelse(grOK, "the end-of-block hook is reached only when the gas rewards accumulated by ApplyTransaction equal the header's", grWhy))
 
 	// ------------------------------------------------------------ N4
 	c.Rule("C06.N4", "CONFINED", "goroutines started by functions reachable from block execution are tabled: they only fill per-transaction sender caches")
@@ -740,6 +727,7 @@ func runC06(c *Ctx) {
 			}
 		}
 	}
+	c06RoundE(c, w)
 }
 
 func chainMakerFuncs(w *World) []*ssa.Function {
@@ -780,6 +768,7 @@ func c06Variants() []Variant {
 		{Name: "clock-in-log-topic", File: "staking/handler.go", Old: "		Topics:      []common.Hash{common.StringToHash(LogTopicWithdraw), tx.MainAddress.Hash()},\n		Data:        combinePendingStakingLogData(ctx.Cfg.CurrYouParams.StakingTrieFrequency, number, finalStaking),", New: "		Topics:      []common.Hash{common.StringToHash(LogTopicWithdraw), tx.MainAddress.Hash(), common.BigToHash(big.NewInt(time.Now().Unix()))},\n		Data:        combinePendingStakingLogData(ctx.Cfg.CurrYouParams.StakingTrieFrequency, number, finalStaking),", Rule: "C06.N2", Construct: "handleWithdraw#Now"},
 		{Name: "seal-only-rewards", File: "staking/endblock.go", Old: "		// rewards to pool for each block\n		rewardsToPool(ctx)", New: "		// rewards to pool for each block\n		if !isSeal || header.Number.Uint64()%7 != 0 {\n			rewardsToPool(ctx)\n		}", Rule: "C06.N3", Construct: "isSeal-use"},
 		{Name: "flush-stops-half-way", File: "core/state/statedb_staking.go", Old: "		updates = append(updates, encodedRecord{key, data})\n", New: "		if st.stakingTrie.TryUpdate(key[:], data) != nil {\n			break\n		}\n", Rule: "C06.N9", Construct: "updateStakingTrie"},
+		{Name: "preimage-read-in-flush", File: "core/state/statedb_staking.go", Old: "	for _, u := range updates {\n", New: "	for _, u := range updates {\n		if len(st.stakingTrie.GetKey(u.key[:])) == 0 {\n			continue\n		}\n", Rule: "C06.N10", Construct: "updateStakingTrie"},
 	}
 }
 
@@ -808,4 +797,147 @@ func freshInAllCallers(w *World, fn *ssa.Function, v ssa.Value) bool {
 		}
 	}
 	return true
+}
+
+// gasRewardsGate: in Process the call of EndBlock is reached only on paths on which a Cmp between the accumulator
+// handed to every ApplyTransaction and header.GasRewards came out equal (sign domain over the Cmp result).
+func gasRewardsGate(w *World, pr *ssa.Function) (bool, string) {
+	var acc ssa.Value
+	for _, ci := range callInstrs(pr) {
+		if o := calleeObj(ci); o != nil && o.Name() == "ApplyTransaction" {
+			for _, a := range callArgs(ci) {
+				if isBigIntPtr(a.Type()) {
+					if acc != nil && stripConvNoBind(a) != acc {
+						return false, "ApplyTransaction is handed different gas-reward accumulators"
+					}
+					acc = stripConvNoBind(a)
+				}
+			}
+		}
+	}
+	if acc == nil {
+		return false, "Process no longer hands a gas-reward accumulator to ApplyTransaction"
+	}
+	var ends []ssa.CallInstruction
+	for _, ci := range callInstrs(pr) {
+		if o := calleeObj(ci); o != nil && o.Name() == "EndBlock" {
+			ends = append(ends, ci)
+		}
+	}
+	if len(ends) == 0 {
+		return false, "Process no longer calls EndBlock"
+	}
+	for _, eb := range ends {
+		atoms := atomsOf(factsAt(eb.Block()))
+		ok := false
+		for _, ci := range callInstrs(pr) {
+			cc, isCall := ci.(*ssa.Call)
+			if !isCall {
+				continue
+			}
+			o := calleeObj(cc)
+			if o == nil || o.Name() != "Cmp" || o.Pkg() == nil || o.Pkg().Path() != "math/big" || !instrDominates(cc, eb.(ssa.Instruction)) {
+				continue
+			}
+			r, a := stripConvNoBind(callRecv(cc)), stripConvNoBind(callArgs(cc)[0])
+			isHdr := func(v ssa.Value) bool {
+				f, _ := loadedField(v)
+				return f != nil && f.Name() == "GasRewards"
+			}
+			if !((r == acc && isHdr(a)) || (a == acc && isHdr(r))) {
+				continue
+			}
+			al := allowedSigns(atoms, cc)
+			if !al[0] && al[1] && !al[2] {
+				ok = true
+			}
+		}
+		if !ok {
+			return false, "the end-of-block hook (" + w.Pos(eb.Pos()) + ") is reached without the computed gas rewards having been found EQUAL to header.GasRewards: the proposer's figure, not what the transactions paid, is distributed as rewards"
+		}
+	}
+	return true, ""
+}
+
+// c06RoundE: N11 (the builder's gas pool only shrinks) and N12 (Commit writes every pre-image).
+func c06RoundE(c *Ctx, w *World) {
+	c.Rule("C06.N11", "WHO-MAY-CALL", "every block the builder assembles is accepted by the importer, whose gas pool starts at header.GasLimit and only shrinks: in package miner gas is added to a pool only when the pool is made (new(GasPool).AddGas(limit)), never to the pool of the block under construction. A rejected transaction is refused by preCheck before any gas is taken; giving its limit \"back\" inflates the builder's pool above the limit, the block's gas used exceeds it and every importer fails with \"gas limit reached\"")
+	c.Min(1)
+	{
+		n := 0
+		for _, fn := range w.FuncsIn("miner") {
+			if fn.Blocks == nil || strings.HasSuffix(w.fileOf(fn.Pos()), "_test.go") {
+				continue
+			}
+			k := 0
+			for _, ci := range callInstrs(fn) {
+				o := calleeObj(ci)
+				if o == nil || o.Name() != "AddGas" || recvName(o) != "GasPool" {
+					continue
+				}
+				n++
+				c.sites++
+				c.sawFunc(fname(fn))
+				_, fresh := stripConvNoBind(callRecv(ci)).(*ssa.Alloc)
+				c.Check(fmt.Sprintf("%s#gas-added-%d-only-to-a-new-pool", fname(fn), k), ci.Pos(), fresh, ifelse(fresh, "the pool is made here", "gas is added to the pool of the block under construction: the builder can spend more gas than header.GasLimit, which no importer accepts"))
+				k++
+			}
+		}
+		if n == 0 {
+			c.Undecided("miner#gas-pool-creation", token.NoPos, "no GasPool.AddGas call found in package miner (the creation of the block's pool is expected)")
+		}
+	}
+
+	c.Rule("C06.N12", "EXIT", "independent of process and cache contents: as long as block execution recovers staking-record keys from secure-trie pre-images (N10), a node agrees with itself across a restart only because trie.Database.Commit writes ALL accumulated pre-images with the state it commits — the loop over db.preimages that puts them into the batch is passed on every path to Commit's success return, not only once the cache is large. Otherwise a node restarted before the end of a staking period silently skips the pending records and rejects the period's last block")
+	c.Min(1)
+	{
+		cm := w.Fn("trie", "Database", "Commit")
+		c.sawFunc(fname(cm))
+		var ranges []ssa.Instruction
+		for _, in := range allInstrs(cm) {
+			rg, ok := in.(*ssa.Range)
+			if !ok {
+				continue
+			}
+			if f, _ := loadedField(stripConvNoBind(rg.X)); f != nil && f.Name() == "preimages" {
+				// the loop must write
+				ranges = append(ranges, rg)
+			}
+		}
+		c.sites++
+		if len(ranges) == 0 {
+			c.Fail(fname(cm)+"#writes-all-preimages", cm.Pos(), "Commit no longer iterates over the accumulated pre-images")
+		} else {
+			bad := ""
+			nSucc := 0
+			for _, b := range cm.Blocks {
+				ret, isRet := b.Instrs[len(b.Instrs)-1].(*ssa.Return)
+				if !isRet || len(ret.Results) == 0 {
+					continue
+				}
+				rv := ret.Results[len(ret.Results)-1]
+				// a result spilled to a variable because of the deferred unlock: the value stored in this block
+				if u, isU := rv.(*ssa.UnOp); isU && u.Op == token.MUL {
+					if al, isAl := u.X.(*ssa.Alloc); isAl {
+						for _, in := range b.Instrs {
+							if st, isSt := in.(*ssa.Store); isSt && st.Addr == ssa.Value(al) {
+								rv = st.Val
+							}
+						}
+					}
+				}
+				if cv, isC := rv.(*ssa.Const); !isC || !cv.IsNil() {
+					continue
+				}
+				nSucc++
+				if !mustPassBefore(ret, ranges) {
+					bad = w.Pos(ret.Pos())
+				}
+			}
+			if nSucc == 0 {
+				bad = "no success return recognised"
+			}
+			c.Check(fname(cm)+"#writes-all-preimages", ranges[0].Pos(), bad == "", ifelse(bad == "", "every success return of Commit has passed the pre-image loop", "Commit can succeed ("+bad+") without having gone through the loop that writes the accumulated pre-images: after a restart the node cannot recover the keys of staking records written before it"))
+		}
+	}
 }
